@@ -54,6 +54,24 @@ Domains (`tier_c`): sequences (exhaustive short sequences over a menu of concret
 long ones), concat / from_partials / permute_rdms (exhaustive over condition orders), edge-sizes (one condition, zero RDMs),
 size-recovery, conversion, argument-forms.
 
+Dimension sweeps (same seven history oracles; the model knows neither dtypes nor containers, so these are metamorphic: the result
+for typed / scaled / differently held inputs is the result for the same values as float64 in lists):
+  typed-units                 dissimilarities held as int64 / int32 / int16 / uint8 / float32 (integer sentinels 1..240, src key
+                              'dtype', case key 'vmode') and float64 in units of 1e-26 .. 1e12 (case key 'unit'): the same numbers
+                              come out, NaN where the property says NaN (also for integer sources); also in C10/conversion
+  containers / argument types descriptors in list / tuple / ndarray / int8-ndarray containers, str of varying width, float values
+                              ('rw', 'rf', 'pw', 'pf'); index / order arguments as numpy integer scalars, int32 / int16 / uint8
+                              arrays, tuples (getitem 'form', reorder 'arr'); RDM ghosts in non-monotone order
+  vector-valued-descriptors   one vector per condition / RDM ('pv', 'rv'; class 'vector-valued-descriptor'): carried along by every
+                              operation (never selected / sorted by; the DataFrame export is not judged for them)
+  call-sequences              `_doubled`: every call performed twice in a row (identical results, the first one survives the
+                              second call); twins of the same shape but other content, interleaved (coarse caches)
+  sweep-histories             seeded random histories over all of the above plus more RDMs / conditions
+  hashseed (C10/hashseed)     a new interpreter with another PYTHONHASHSEED judges str-labelled merge histories by all clauses
+  argument-forms              hdf5-style dictionaries whose items are stored in another order than the element numbers
+Classes pending triage (registrations behind `if False`): concat-default-target-vector-valued-descriptor,
+to_df-vector-valued-descriptor, permute_rdms-vector-of-another-integer-type.
+
 NOT covered by this tier: save/load through hdf5/pkl files (C16); RDMs.mean, rescale, transforms (they compute values);
 inadmissible arguments (non-permutation orders, selections leaving zero conditions -- an RDM over 0 conditions has no
 vector form --, concat/append of objects over different condition sets, duplicate-valued target descriptors, objects whose
@@ -79,11 +97,19 @@ INPLACE = ('reorder', 'sort_by', 'append')
 # ghost universe: descriptor values and dissimilarities as functions of the ghost ids
 # =====================================================================================================
 def _rdesc(g):
-    return {'rid': g, 'rs': 's%d' % (g % 2), 'rn': 'r%02d' % ((g * 7 + 3) % 100), 'ri': (g * 3) % 4}
+    # 'rw' (str of varying width), 'rf' (float) and 'rv' (vector valued) are only used by sources that name them in 'rorder'
+    return {'rid': g, 'rs': 's%d' % (g % 2), 'rn': 'r%02d' % ((g * 7 + 3) % 100), 'ri': (g * 3) % 4,
+            'rw': 'w' * ((g * 2) % 5) + 'R%d' % g, 'rf': ((g * 3) % 5) * 0.1 + 0.2, 'rv': [g % 2, g * 2 + 1]}
 
 
 def _pdesc(c):
-    return {'cid': c, 'pn': 'n%02d' % ((c * 37 + 11) % 100), 'pc': 'xyz'[c % 3], 'pi': (c * 5 + 2) % 7}
+    # 'pw' (str of varying width), 'pf' (float) and 'pv' (vector valued) are only used by sources that name them in 'porder'
+    return {'cid': c, 'pn': 'n%02d' % ((c * 37 + 11) % 100), 'pc': 'xyz'[c % 3], 'pi': (c * 5 + 2) % 7,
+            'pw': 'c%d' % c + '_long' * ((c * 2) % 3), 'pf': ((c * 7) % 11) * 0.1 + 0.2, 'pv': [c % 3, 10 + c // 2]}
+
+
+R_GHOST = tuple(_rdesc(0))      # rdm descriptor names whose value is a function of the ghost id
+VECTOR_VALUED = ('rv', 'pv')    # one VECTOR per RDM / condition (2-D descriptor): carried along, never selected / sorted by
 
 
 def _val(g, a, b):
@@ -137,7 +163,7 @@ class M:
         lo, hi = (ca, cb) if ca < cb else (cb, ca)
         if (g, lo, hi) in nans:
             return NAN
-        return _val(g, ca, cb)
+        return nans.val(g, ca, cb)
 
 
 def _m_source(src, fam):
@@ -146,8 +172,30 @@ def _m_source(src, fam):
              src.get('odesc', {}), range(len(rows)), range(len(src['cids'])), fam)
 
 
+class Ctx(set):
+    """the value universe of one case: the set of (ghost, lo, hi) entries that are NaN in the sources, and the sentinel map.
+    case['vmode'] = 'small': integer sentinels 1..240 (they fit uint8 / int16; ghosts distinct mod 16, condition ghosts < 6);
+    case['unit']: every sentinel is multiplied by this factor (extreme but legitimate units)."""
+    vmode = None
+    unit = 1.0
+    export_vector = False
+
+    def val(self, g, a, b):
+        lo, hi = (a, b) if a < b else (b, a)
+        if self.vmode == 'small':
+            if not 0 <= lo < hi < 6:
+                raise ValueError('vmode small needs condition ghosts 0..5')
+            v = 1.0 + (g % 16) * 15 + (lo * (11 - lo)) // 2 + (hi - lo - 1)
+        else:
+            v = _val(g, a, b)
+        return v * self.unit
+
+
 def _nans(case):
-    out = set()
+    out = Ctx()
+    out.vmode = case.get('vmode')
+    out.unit = float(case.get('unit', 1.0))
+    out.export_vector = bool(case.get('export_vector', False))
     for s in case['src']:
         for g, a, b in s.get('nan', []):
             out.add((g, min(a, b), max(a, b)))
@@ -182,7 +230,7 @@ def _absent_like(v):
 def _sel_values(getter, n, a, names):
     by = a.get('by')
     name = 'index' if by is None else by
-    if by is not None and by not in names:
+    if by is not None and (by not in names or by in VECTOR_VALUED):
         raise Inadmissible('descriptor')
     pos = a.get('pos', [])
     if any(not 0 <= p < n for p in pos):
@@ -193,7 +241,7 @@ def _sel_values(getter, n, a, names):
         vals.append(_absent_like(like))
     if not vals:
         raise Inadmissible('no value')
-    if a.get('cont') == 'scalar' and len(vals) != 1:
+    if a.get('cont') in ('scalar', 'npscalar') and len(vals) != 1:
         raise Inadmissible('scalar')
     return name, vals
 
@@ -228,7 +276,7 @@ def _merge(objs):
                     v = o.odesc[nme]
                 else:
                     raise Inadmissible('descriptor %s undefined for one object' % nme)
-                if nme not in ('rid', 'rs', 'rn', 'ri'):
+                if nme not in R_GHOST:
                     ex[nme] = v
             rows.append((g, present, ex))
     return rows, rnames, common
@@ -255,7 +303,16 @@ def m_step(models, op, fam_counter):
         lst = idx if isinstance(idx, list) else [idx]
         if any(not -n_r <= k < n_r for k in lst) or not lst:
             raise Inadmissible('index')
-        out['args'] = dict(i=np.array(idx) if a.get('arr') else idx)
+        form = a.get('form')          # index container / type: Python int | list (default), ndarray ('arr'), numpy integer types
+        if form == 'npint':
+            real_idx = np.int64(idx) if not isinstance(idx, list) else [np.int64(k) for k in idx]
+        elif form in ('int32', 'int16', 'uint8'):
+            if form == 'uint8' and any(k < 0 for k in lst):
+                raise Inadmissible('negative index of an unsigned type')
+            real_idx = np.array(idx, dtype=form) if isinstance(idx, list) else np.dtype(form).type(idx)
+        else:
+            real_idx = np.array(idx) if a.get('arr') else idx
+        out['args'] = dict(i=real_idx)
         out['new'] = [m.new(rows=[m.rows[k] for k in lst], rindex=[m.rindex[k] for k in lst])]
     elif kind == 'iter':
         k = a['k']
@@ -283,11 +340,18 @@ def m_step(models, op, fam_counter):
         out['new'] = [m.new(cids=[m.cids[c] for c in sel], pindex=[m.pindex[c] for c in sel])]
     elif kind == 'reorder':
         p = _perm(a['perm'], n_c)
-        out['args'] = dict(order=np.array(p, dtype=int) if a.get('arr') else p)
+        arr = a.get('arr')            # order container: list (default), ndarray of int (True) / of another integer type, tuple
+        if arr in ('int32', 'int16', 'uint8'):
+            order = np.array(p, dtype=arr)
+        elif arr == 'tuple':
+            order = tuple(p)
+        else:
+            order = np.array(p, dtype=int) if arr else p
+        out['args'] = dict(order=order)
         out['repl'] = {i: m.new(cids=[m.cids[c] for c in p], pindex=[m.pindex[c] for c in p])}
     elif kind == 'sort_by':
         name = a['by']
-        if name not in m.pnames:
+        if name not in m.pnames or name in VECTOR_VALUED:
             raise Inadmissible('descriptor')
         vals = [m.pval(c, name) for c in range(n_c)]
         if a['how'] == 'alpha':
@@ -310,7 +374,9 @@ def m_step(models, op, fam_counter):
         o = models[j]
         if o.cids != m.cids or not set(m.rnames) <= set(o.rnames):
             raise Inadmissible('append needs the same conditions in the same order and the same descriptors')
-        rows = list(m.rows) + [(g, pr, {k: o.rval(r, k) for k in m.rnames if k not in ('rid', 'rs', 'rn', 'ri')})
+        if ('p_inv' in o.odesc) != ('p_inv' in m.odesc):
+            raise Inadmissible('append needs the same dissimilarity measure (a permute_rdms result carries none)')
+        rows = list(m.rows) + [(g, pr, {k: o.rval(r, k) for k in m.rnames if k not in R_GHOST})
                                for r, (g, pr, ex) in enumerate(o.rows)]
         out['others'] = [j]
         out['repl'] = {i: m.new(rows=rows, rindex=range(len(rows)))}
@@ -324,9 +390,11 @@ def m_step(models, op, fam_counter):
             raise Inadmissible('empty')
         od = dict(m.odesc)
         od['p_inv'] = 'p_inv'
-        out['args'] = dict(p=np.array(p, dtype=int))
+        out['args'] = dict(p=np.array(p, dtype=a.get('dt', int)))
         out['new'] = [m.new(cids=[m.cids[c] for c in p], pindex=[str(m.pindex[c]) for c in p], odesc=od,
                             fam=next(fam_counter))]
+        if np.dtype(a.get('dt', int)) != np.dtype(int):
+            out['flags'].append(('completes', 'permute_rdms-vector-of-another-integer-type'))
         if p != list(range(n_c)) and m.pnames:
             out['flags'].append(('pattern-descriptors', 'permute_rdms'))
     elif kind == 'concat':
@@ -341,10 +409,13 @@ def m_step(models, op, fam_counter):
         n_first = len(first.cids)
 
         def uniq(nm):
-            return len(set(first.pval(c, nm) for c in range(n_first))) == n_first
+            return nm not in VECTOR_VALUED and len(set(first.pval(c, nm) for c in range(n_first))) == n_first
         if target is None:
             cands = [nm for nm in first.pnames if uniq(nm)]
             used = cands[0] if cands else None
+            if set(first.pnames) & set(VECTOR_VALUED):
+                # the search for a default target descriptor must cope with (skip) a descriptor holding one vector per condition
+                out['flags'].append(('completes', 'concat-default-target-vector-valued-descriptor'))
         else:
             if target not in first.pnames or not uniq(target):
                 raise Inadmissible('target descriptor')
@@ -369,6 +440,8 @@ def m_step(models, op, fam_counter):
         idxs = [_abs(k, n_pool) for k in a['objs']]
         objs = [models[k] for k in idxs]
         d = a['desc']
+        if d in VECTOR_VALUED:
+            raise Inadmissible('descriptor')
         for o in objs:
             if d not in o.pnames or len(set(o.cids)) != len(o.cids):
                 raise Inadmissible('descriptor')
@@ -411,6 +484,8 @@ def m_step(models, op, fam_counter):
 def _container(vals, cont):
     if cont == 'scalar':
         return vals[0]
+    if cont == 'npscalar':
+        return np.array(vals)[0]        # numpy scalar (np.int64 / np.float64 / np.str_), e.g. an element of np.unique(descriptor)
     if cont == 'tuple':
         return tuple(vals)
     if cont == 'array':
@@ -460,10 +535,29 @@ def _build(src, nans, m):
         diss = vec[0]
     else:
         diss = vec
-    pcont = np.array if src.get('ptype') == 'array' else list
-    rcont = np.array if src.get('rtype') == 'array' else list
-    rd = {nm: rcont([_rdesc(g)[nm] for g in src['rids']]) for nm in m.rnames}
-    pd = {nm: pcont([_pdesc(c)[nm] for c in src['cids']]) for nm in m.pnames}
+    dtype = src.get('dtype')
+    if dtype is not None:
+        # typed data: the same numbers held in an integer / float32 array (the sentinels must be exactly representable)
+        typed = diss.astype(dtype)
+        if np.isnan(diss).any() and not np.issubdtype(np.dtype(dtype), np.floating):
+            raise ValueError('NaN entries need a floating dtype')
+        if not np.array_equal(typed.astype(float), diss, equal_nan=True):
+            raise ValueError(f'sentinel values are not representable as {dtype}')
+        diss = typed
+    conts = {'array': np.array, 'tuple': tuple, 'int8': lambda v: np.array(v, dtype=np.int8)}
+    pcont = conts.get(src.get('ptype'), list)
+    rcont = conts.get(src.get('rtype'), list)
+
+    def cont(f, nm, vals):
+        if f is not list and f is not tuple and isinstance(vals[0], str):
+            return np.array(vals)                      # typed containers apply to the numeric descriptors only
+        if f is tuple and nm in VECTOR_VALUED:
+            return tuple(tuple(v) for v in vals)
+        if nm in ('rf', 'pf') and f not in (list, tuple):
+            return np.array(vals)
+        return f(vals)
+    rd = {nm: cont(rcont, nm, [_rdesc(g)[nm] for g in src['rids']]) for nm in m.rnames}
+    pd = {nm: cont(pcont, nm, [_pdesc(c)[nm] for c in src['cids']]) for nm in m.pnames}
     return RDMs(diss, dissimilarity_measure='m', descriptors=dict(src.get('odesc', {})),
                 rdm_descriptors=rd, pattern_descriptors=pd)
 
@@ -521,6 +615,9 @@ def _veq(x, y):
     xs, ys = isinstance(x, str), isinstance(y, str)
     if xs != ys:
         return False
+    if isinstance(x, (list, tuple, np.ndarray)) or isinstance(y, (list, tuple, np.ndarray)):
+        xa, ya = np.asarray(x), np.asarray(y)      # vector-valued descriptor: the whole vector
+        return xa.shape == ya.shape and xa.dtype.kind in 'iuf' and bool(np.array_equal(xa, ya))
     try:
         return bool(x == y)
     except Exception:
@@ -557,6 +654,12 @@ def _norm(v):
     return v
 
 
+def _normd(v):
+    """a dissimilarity as exported: the NUMBER (an integer-typed source may be exported as integer)"""
+    f = float(v)
+    return 'nan' if f != f else f
+
+
 def _export_check(x):
     """to_df / to_dict against the object's own matrices and descriptors (explicit loops)"""
     mats = x.get_matrices()
@@ -570,7 +673,7 @@ def _export_check(x):
             for b in range(a + 1, n_c):
                 pa = tuple(_norm(x.pattern_descriptors[k][a]) for k in pn)
                 pb = tuple(_norm(x.pattern_descriptors[k][b]) for k in pn)
-                want[repr((_norm(mats[r, a, b]), rd, tuple(sorted((pa, pb), key=repr))))] += 1
+                want[repr((_normd(mats[r, a, b]), rd, tuple(sorted((pa, pb), key=repr))))] += 1
     df = x.to_df()
     rcol = ['rdm_index' if k == 'index' else k for k in rn]
     pcol = ['pattern_index' if k == 'index' else k for k in pn]
@@ -587,7 +690,7 @@ def _export_check(x):
         rd = tuple(_norm(v) for v in row[1:1 + n_rd])
         pa = tuple(_norm(v) for v in row[1 + n_rd:1 + n_rd + n_pd])
         pb = tuple(_norm(v) for v in row[1 + n_rd + n_pd:])
-        got[repr((_norm(row[0]), rd, tuple(sorted((pa, pb), key=repr))))] += 1
+        got[repr((_normd(row[0]), rd, tuple(sorted((pa, pb), key=repr))))] += 1
     if got != want:
         miss = list((want - got).elements())[:2]
         extra = list((got - want).elements())[:2]
@@ -602,6 +705,17 @@ def _export_check(x):
         if sorted(d[key].keys()) != sorted(own.keys()) or any(
                 [_norm(v) for v in d[key][k]] != [_norm(v) for v in own[k]] for k in own):
             return f'to_dict {key} differ from the object'
+    return None
+
+
+def _export_check_vector(x):
+    """objects carrying a vector-valued descriptor: to_df() completes, has one row per (rdm, pair) and the right values"""
+    df = x.to_df()
+    vec = x.get_vectors()
+    if len(df) != vec.size:
+        return f'to_df has {len(df)} rows, expected {vec.size}'
+    if not np.array_equal(np.asarray(df['dissimilarity'], dtype=float), vec.ravel().astype(float), equal_nan=True):
+        return 'to_df dissimilarity column differs from the row-wise vector form'
     return None
 
 
@@ -653,9 +767,10 @@ def _check(x, m, nans, export):
     for k, v in m.odesc.items():
         if k != 'p_inv' and not (isinstance(x.descriptors, dict) and k in x.descriptors and _veq(x.descriptors[k], v)):
             out.setdefault('rdm-descriptors', f'object-level descriptor {k!r} = {v!r} lost: {x.descriptors!r}')
-    if export and dims_ok:
+    if export and dims_ok and (nans.export_vector or not (set(m.pnames) | set(m.rnames)) & set(VECTOR_VALUED)):
+        # (how a DataFrame cell shows a vector-valued descriptor is not specified: judged only on request, see 'to_df-vector-valued')
         try:
-            msg = _export_check(x)
+            msg = _export_check_vector(x) if nans.export_vector else _export_check(x)
         except Exception as e:  # noqa
             msg = f'export raised {type(e).__name__}: {e}'
         if msg:
@@ -790,10 +905,14 @@ def orc_conversion(case):
     n_r, n = case['n_rdm'], case['n_cond']
     L = n * (n - 1) // 2
     vec = (np.arange(n_r * L, dtype=float).reshape(n_r, L) + 1) * 1.5
+    if case.get('dtype'):
+        # typed data: integers 1, 2, 3 ... held as int / uint8 / float32: the conversions give the same NUMBERS
+        vec = (np.arange(n_r * L).reshape(n_r, L) + 1).astype(case['dtype'])
+    vec = vec * case['unit'] if 'unit' in case else vec
     for _ in range(case.get('n_nan', 0)):
         if L:
             vec[rs.randint(n_r), rs.randint(L)] = np.nan
-    mats = np.zeros((n_r, n, n))
+    mats = np.zeros((n_r, n, n), dtype=vec.dtype)
     for r in range(n_r):
         k = 0
         for a in range(n):
@@ -806,7 +925,7 @@ def orc_conversion(case):
     elif form == 'vectorF':
         inp = np.asfortranarray(vec.copy())
     elif form == 'vector-view':
-        big = np.zeros((n_r, 2 * L + 1))
+        big = np.zeros((n_r, 2 * L + 1), dtype=vec.dtype)
         big[:, ::2][:, :L] = vec
         inp = big[:, ::2][:, :L]
     elif form == 'matrix':
@@ -868,9 +987,18 @@ def orc_argforms(case):
         n_r = case['n_rdm']
         vec = np.arange(n_r * L, dtype=float).reshape(n_r, L) + 1
         subj = ['s%02d' % ((7 * r) % n_r) for r in range(n_r)]
+        # order of the items inside the stored dictionaries: ascending numbers (default), as an hdf5 group lists them
+        # (alphabetical: '0', '1', '10', '11', '2', ...), or descending -- the number in the KEY says which element it is
+        ko = case.get('key_order', 'asc')
+
+        def keys(k):
+            ks = [str(i) for i in range(k)]
+            return sorted(ks) if ko == 'alpha' else (ks[::-1] if ko == 'desc' else ks)
         d = dict(dissimilarities=vec.copy(), descriptors={}, dissimilarity_measure='m',
-                 rdm_descriptors={'subj': {str(r): subj[r] for r in range(n_r)}, 'index': list(range(n_r))},
-                 pattern_descriptors={'name': {str(a): names[a] for a in range(n)}, 'index': np.arange(n)})
+                 rdm_descriptors={'subj': {k: subj[int(k)] for k in keys(n_r)}, 'index': list(range(n_r))},
+                 pattern_descriptors={'name': {k: names[int(k)] for k in keys(n)}, 'index': np.arange(n)})
+        if ko != 'asc':
+            d['pattern_descriptors'] = dict(reversed(list(d['pattern_descriptors'].items())))     # 'index' first
         y = rdms_from_dict(d)
         if list(y.rdm_descriptors['subj']) != subj or list(y.pattern_descriptors['name']) != list(names):
             return f'descriptors after rdms_from_dict: {list(y.rdm_descriptors["subj"])}, {list(y.pattern_descriptors["name"])}'
@@ -912,8 +1040,9 @@ class Multi:
     def out_of_budget(self):
         return any(b.out_of_budget() for b in self.bds.values())
 
-    def check(self, case):
-        """runs all clauses on the case.  The input class of a failure is the class the model gave to the STEP at which
+    def check(self, case, label=None):
+        """runs all clauses on the case.  `label`: input class to use where the model gives 'plain' (cases registered under a
+        class of their own).  The input class of a failure is the class the model gave to the STEP at which
         the clause fails ('plain' when the model did not flag that step for that clause), so that a class with a recorded
         defect never hides a failure at another step."""
         flags, _ = dry_run(case)
@@ -924,11 +1053,11 @@ class Multi:
         self.n += 1
         fn = 'RDMs.' + case['ops'][-1][0] if case['ops'] else 'RDMs'
         for a in ASPECTS:
-            label = 'plain'
+            lab = label or 'plain'
             if a in res and 0 <= res[a][0] < len(flags):
-                label = dict(flags[res[a][0]]).get(a, 'plain')
+                lab = dict(flags[res[a][0]]).get(a, lab)
                 fn = 'RDMs.' + case['ops'][res[a][0]][0]
-            self.bds[a].check(ORC[a], case, label, function=fn)
+            self.bds[a].check(ORC[a], case, lab, function=fn)
 
     def done(self):
         for b in self.bds.values():
@@ -1033,9 +1162,14 @@ def dom_exhaustive(run, thorough):
     return mu.done()
 
 
-def _gen_history(rs, src, n_ops, kinds):
-    """seeded random admissible history (model only)"""
-    case = dict(src=src, ops=[])
+PENDING = ('permute_rdms-vector-of-another-integer-type', 'concat-default-target-vector-valued-descriptor')
+INT_FORMS = [None, 'npint', 'int32', 'int16', 'uint8']
+
+
+def _gen_history(rs, src, n_ops, kinds, sweep=False, **case_keys):
+    """seeded random admissible history (model only).  sweep: additionally varies the TYPES of index / order arguments, draws the
+    extended descriptors and never generates a step of a class that is pending triage (extra random draws: other cases than sweep=False)"""
+    case = dict(src=src, ops=[], **case_keys)
     _, models = dry_run(case)
     tries = 0
     while len(case['ops']) < n_ops and tries < 40 * n_ops:
@@ -1045,6 +1179,8 @@ def _gen_history(rs, src, n_ops, kinds):
         m = models[i]
         n_r, n_c = len(m.rows), len(m.cids)
         cont = ['list', 'tuple', 'array', 'scalar'][rs.randint(4)]
+        if sweep and cont == 'scalar' and rs.rand() < 0.5:
+            cont = 'npscalar'
         if kind == 'getitem':
             if n_r == 0:
                 continue
@@ -1052,6 +1188,8 @@ def _gen_history(rs, src, n_ops, kinds):
                 a = {'i': int(rs.randint(-n_r, n_r))}
             else:
                 a = {'i': [int(v) for v in rs.randint(-n_r, n_r, size=rs.randint(1, n_r + 2))], 'arr': bool(rs.rand() < 0.5)}
+            if sweep:
+                a['form'] = INT_FORMS[rs.randint(len(INT_FORMS))]
             op = [kind, i, a]
         elif kind == 'iter':
             if n_r == 0:
@@ -1059,22 +1197,26 @@ def _gen_history(rs, src, n_ops, kinds):
             op = [kind, i, {'k': int(rs.randint(n_r))}]
         elif kind in ('subset', 'subsample'):
             by = ([None] + m.rnames)[rs.randint(len(m.rnames) + 1)]
-            k = 1 if cont == 'scalar' else rs.randint(1, 4)
+            k = 1 if cont in ('scalar', 'npscalar') else rs.randint(1, 4)
             pos = [int(v) for v in rs.randint(0, max(n_r, 1), size=k)] if n_r else []
-            a = {'by': by, 'pos': pos, 'cont': cont, 'absent': bool(rs.rand() < 0.15 and cont != 'scalar') or not pos}
+            a = {'by': by, 'pos': pos, 'cont': cont, 'absent': bool(rs.rand() < 0.15 and cont not in ('scalar', 'npscalar')) or not pos}
             op = [kind, i, a]
         elif kind in ('subset_pattern', 'subsample_pattern'):
             by = ([None] + m.pnames)[rs.randint(len(m.pnames) + 1)]
-            k = 1 if cont == 'scalar' else rs.randint(1, n_c + 1)
+            k = 1 if cont in ('scalar', 'npscalar') else rs.randint(1, n_c + 1)
             pos = [int(v) for v in rs.randint(0, n_c, size=k)]
-            op = [kind, i, {'by': by, 'pos': pos, 'cont': cont, 'absent': bool(rs.rand() < 0.15 and cont != 'scalar')}]
+            op = [kind, i, {'by': by, 'pos': pos, 'cont': cont, 'absent': bool(rs.rand() < 0.15 and cont not in ('scalar', 'npscalar'))}]
         elif kind == 'reorder':
             op = [kind, i, {'perm': [int(v) for v in rs.permutation(n_c)], 'arr': bool(rs.rand() < 0.5)}]
+            if sweep:
+                op[2]['arr'] = [False, True, 'int32', 'int16', 'uint8', 'tuple'][rs.randint(6)]
         elif kind == 'sort_by':
             if not m.pnames:
                 continue
             by = m.pnames[rs.randint(len(m.pnames))]
             how = 'alpha' if rs.rand() < 0.5 else 'list'
+            if sweep and how == 'list' and rs.rand() < 0.4:
+                how = 'array'
             op = [kind, i, {'by': by, 'how': how, 'perm': [int(v) for v in rs.permutation(n_c)], 'reindex': bool(rs.rand() < 0.6)}]
         elif kind == 'append':
             op = [kind, i, {'other': int(rs.randint(len(models)))}]
@@ -1087,11 +1229,15 @@ def _gen_history(rs, src, n_ops, kinds):
             k = rs.randint(1, 4)
             objs = [i] + [int(mates[rs.randint(len(mates))]) for _ in range(k - 1)]
             tg = [None, None, 'cid', 'pn'][rs.randint(4)]
+            if sweep and rs.rand() < 0.3:
+                tg = 'pw'
             op = [kind, None, {'objs': objs, 'target': tg, 'call': 'list' if rs.rand() < 0.5 else 'args'}]
         elif kind == 'from_partials':
             k = rs.randint(1, 4)
             objs = [i] + [int(rs.randint(len(models))) for _ in range(k - 1)]
             d = ['cid', 'pn'][rs.randint(2)]
+            if sweep and rs.rand() < 0.3:
+                d = 'pw'
             mode = rs.randint(4)
             if mode == 3:
                 un = []
@@ -1104,12 +1250,14 @@ def _gen_history(rs, src, n_ops, kinds):
             op = [kind, None, {'objs': objs, 'desc': d, 'all': allp}]
         else:
             raise ValueError(kind)
-        cand = dict(src=src, ops=case['ops'] + [op])
+        cand = dict(case, ops=case['ops'] + [op])
         try:
-            _, models = dry_run(cand)
+            flags, models2 = dry_run(cand)
         except Inadmissible:
             continue
-        case = cand
+        if sweep and any(c in PENDING for _, c in flags[-1]):
+            continue
+        case, models = cand, models2
     return case
 
 
@@ -1186,6 +1334,18 @@ def dom_concat(run, thorough):
     return mu.done()
 
 
+# every operation kind once, on a pool [object with 2 RDMs, object with 1 RDM over the same conditions]
+OPS_EACH = [['getitem', 0, {'i': 0}], ['getitem', 0, {'i': [1, 0]}], ['iter', 0, {'k': 1}],
+            ['subset', 0, {'by': 'rid', 'pos': [1], 'cont': 'list'}], ['subsample', 0, {'by': 'rs', 'pos': [0, 0], 'cont': 'tuple'}],
+            ['subset_pattern', 0, {'by': 'cid', 'pos': [0], 'cont': 'scalar'}],
+            ['subsample_pattern', 0, {'by': 'cid', 'pos': [0, 0], 'cont': 'list'}],
+            ['reorder', 0, {'perm': 'rev'}], ['sort_by', 0, {'by': 'pn', 'how': 'alpha'}],
+            ['sort_by', 0, {'by': 'cid', 'how': 'list', 'perm': 'rev'}], ['append', 0, {'other': 1}], ['copy', 0, {}], ['dict', 0, {}],
+            ['concat', None, {'objs': [0, 1], 'target': None}], ['concat', None, {'objs': [1, 0], 'target': 'cid', 'call': 'list'}],
+            ['from_partials', None, {'objs': [0, 1], 'desc': 'cid', 'all': None}],
+            ['from_partials', None, {'objs': [1, 0], 'desc': 'pn', 'all': 'rev+extra'}]]
+
+
 def dom_edge(run, thorough):
     mu = Multi(run, 'edge-sizes',
                'every operation kind once on a 2-RDM object over ONE condition, on an object with ZERO RDMs (selection of an absent '
@@ -1193,15 +1353,7 @@ def dom_edge(run, thorough):
                exhaustive=False)
     one = [_src([0, 1], [5]), _src([7], [5], ptype='array', rtype='array')]
     two = [_src([0, 1], [5, 3], nan=[[1, 3, 5]]), _src([7], [5, 3], ptype='array', form='vector1d')]
-    ops_each = [['getitem', 0, {'i': 0}], ['getitem', 0, {'i': [1, 0]}], ['iter', 0, {'k': 1}],
-                ['subset', 0, {'by': 'rid', 'pos': [1], 'cont': 'list'}], ['subsample', 0, {'by': 'rs', 'pos': [0, 0], 'cont': 'tuple'}],
-                ['subset_pattern', 0, {'by': 'cid', 'pos': [0], 'cont': 'scalar'}],
-                ['subsample_pattern', 0, {'by': 'cid', 'pos': [0, 0], 'cont': 'list'}],
-                ['reorder', 0, {'perm': 'rev'}], ['sort_by', 0, {'by': 'pn', 'how': 'alpha'}],
-                ['sort_by', 0, {'by': 'cid', 'how': 'list', 'perm': 'rev'}], ['append', 0, {'other': 1}], ['copy', 0, {}], ['dict', 0, {}],
-                ['concat', None, {'objs': [0, 1], 'target': None}], ['concat', None, {'objs': [1, 0], 'target': 'cid', 'call': 'list'}],
-                ['from_partials', None, {'objs': [0, 1], 'desc': 'cid', 'all': None}],
-                ['from_partials', None, {'objs': [1, 0], 'desc': 'pn', 'all': 'rev+extra'}]]
+    ops_each = OPS_EACH
     big = [_src([0, 1], range(40), nan=[[1, 3, 5]], ptype='array'), _src([7], range(40), form='matrix')]
     for src in (one, two, big):
         for op in ops_each:
@@ -1279,7 +1431,7 @@ def dom_small(run, thorough):
     bd.done()
     out.append(bd)
     bd = Bounded(run, 'C10/conversion', 'C10/batch_to_vectors/oracle/conversion',
-                 'stacks of 1..3 RDMs over 1..%d conditions in 2-D (C, F, strided view), 3-D (C, F) and 1-D input form, with and without NaN'
+                 'stacks of 1..3 RDMs over 1..%d conditions in 2-D (C, F, strided view), 3-D (C, F) and 1-D input form, with and without NaN; float64, int64 / int16 / uint8 / float32 typed, and in units of 1e-26, 1e-12, 1e12'
                  % (7 if thorough else 5), exhaustive=True, function='batch_to_vectors')
     for n_r in (1, 2, 3):
         for n in range(1, 8 if thorough else 6):
@@ -1289,10 +1441,19 @@ def dom_small(run, thorough):
                         continue
                     bd.check(orc_conversion, dict(seed=n + 10 * n_r, n_rdm=n_r, n_cond=n, form=form, n_nan=n_nan),
                              'single-condition' if n == 1 else form, function='batch_to_vectors' if 'vector' in form else 'batch_to_matrices')
+                if n_r == 2 or form == 'vector1d' or thorough:
+                    # typed data (integer sentinels; no NaN in integer arrays) and extreme units
+                    extra = [dict(dtype=dt, n_nan=2 if dt == 'float32' else 0) for dt in ('int64', 'int16', 'uint8', 'float32')]
+                    extra += [dict(unit=u, n_nan=1) for u in (1e-26, 1e-12, 1e12)]
+                    for kw in extra:
+                        if form == 'vector1d' and n_r > 1:
+                            continue
+                        bd.check(orc_conversion, dict(seed=n + 10 * n_r, n_rdm=n_r, n_cond=n, form=form, **kw),
+                                 'single-condition' if n == 1 else form, function='batch_to_vectors' if 'vector' in form else 'batch_to_matrices')
     bd.done()
     out.append(bd)
     bd = Bounded(run, 'C10/argument-forms', 'C10/RDMs/oracle/argument-forms',
-                 'rdms_from_dict of hdf5-style dictionaries with 1..25 RDMs; scalar str value for subset_pattern / subsample_pattern over label sets with and without labels that are substrings of '
+                 'rdms_from_dict of hdf5-style dictionaries with 1..25 RDMs (items stored in ascending / alphabetical / descending key order); scalar str value for subset_pattern / subsample_pattern over label sets with and without labels that are substrings of '
                  'each other; sort_by with the explicit order given as list and as ndarray, all orders of 3 labels',
                  exhaustive=False, function='RDMs.subset_pattern')
     for names in (['a', 'b', 'c', 'd'], ['c1', 'c10', 'x', 'y'], ['ab', 'a', 'b', 'y'], ['face', 'house', 'facehouse']):
@@ -1305,6 +1466,9 @@ def dom_small(run, thorough):
     for n_r in (1, 3, 12, 25):
         bd.check(orc_argforms, dict(kind='from_dict', names=['c%02d' % ((5 * a) % 13) for a in range(13)], n_rdm=n_r),
                  'hdf5-style-dictionary', function='rdms_from_dict')
+        for ko in ('alpha', 'desc'):
+            bd.check(orc_argforms, dict(kind='from_dict', names=['c%02d' % ((5 * a) % 13) for a in range(13)], n_rdm=n_r, key_order=ko),
+                     'hdf5-style-dictionary', function='rdms_from_dict')
     for perm in itertools.permutations(range(3)):
         for arr in (False, True):
             bd.check(orc_argforms, dict(kind='sort_by', names=['b', 'c', 'a'], perm=list(perm), array=arr),
@@ -1312,6 +1476,287 @@ def dom_small(run, thorough):
     bd.done()
     out.append(bd)
     return out
+
+
+# =====================================================================================================
+# dimension sweeps: typed data, units, containers, call sequences, environment
+# =====================================================================================================
+def _doubled(case):
+    """call-sequence sweep: every operation that returns a new object is performed TWICE in a row with the same arguments (the
+    same call twice must give the same result; the first result, held by the caller, must survive the second call).  The later
+    operations of the history act on the FIRST result; the second one stays in the pool and is re-checked after every step."""
+    fam = itertools.count(len(case['src']))
+    models = [_m_source(s, k) for k, s in enumerate(case['src'])]
+    pos = list(range(len(models)))          # object number in the original history -> object number in the doubled one
+    n_new = len(models)
+    ops = []
+    for op in case['ops']:
+        kind, ref, a = op
+        n_old = len(models)
+        a2 = dict(a)
+        ref2 = None if ref is None else pos[_abs(ref, n_old)]
+        if 'other' in a:
+            a2['other'] = pos[_abs(a['other'], n_old)]
+        if 'objs' in a:
+            a2['objs'] = [pos[_abs(k, n_old)] for k in a['objs']]
+        st = m_step(models, op, fam)
+        for k, mm in st['repl'].items():
+            models[k] = mm
+        models += st['new']
+        ops.append([kind, ref2, a2])
+        if st['new']:
+            pos.append(n_new)
+            ops.append([kind, ref2, dict(a2)])
+            n_new += 2
+    out = {k: v for k, v in case.items() if k != 'export_from'}
+    out['ops'] = ops
+    if 'export_from' in case:
+        out['export_from'] = min(case['export_from'], 0)
+    return out
+
+
+EXTRA_OPS = [['subsample_pattern', 0, {'by': 'cid', 'pos': [1, 3, 1, 1], 'cont': 'array'}],
+             ['subsample_pattern', 0, {'by': 'pc', 'pos': [0, 2], 'cont': 'tuple'}],
+             ['subset_pattern', 0, {'by': 'pn', 'pos': [3, 0, 2], 'cont': 'array'}],
+             ['subsample', 0, {'by': 'rid', 'pos': [1, 1, 0], 'cont': 'array'}],
+             ['permute', 0, {'perm': 'rot'}],
+             ['subset', 0, {'by': 'rid', 'pos': [1], 'cont': 'npscalar'}], ['subsample', 0, {'by': 'rn', 'pos': [0], 'cont': 'npscalar'}],
+             ['subset_pattern', 0, {'by': 'pn', 'pos': [2], 'cont': 'npscalar'}], ['subsample_pattern', 0, {'by': 'pc', 'pos': [0], 'cont': 'npscalar'}],
+             ['getitem', 0, {'i': 1, 'form': 'npint'}], ['getitem', 0, {'i': [1, 1, 0], 'form': 'int32'}],
+             ['getitem', 0, {'i': [0, 1], 'form': 'uint8'}], ['getitem', 0, {'i': -1, 'form': 'int16'}],
+             ['reorder', 0, {'perm': 'rot', 'arr': 'int32'}], ['reorder', 0, {'perm': 'rot', 'arr': 'uint8'}],
+             ['reorder', 0, {'perm': 'rot', 'arr': 'tuple'}],
+             ['sort_by', 0, {'by': 'cid', 'how': 'array', 'perm': 'rot', 'reindex': False}]]
+DTYPES = ('int64', 'int32', 'int16', 'uint8', 'float32')
+UNITS = (1e-26, 1e-20, 1e-12, 1e6, 1e12)
+P_EXT = ['pw', 'cid', 'pf', 'pn', 'pc', 'pi']
+R_EXT = ['rw', 'rid', 'rf', 'rs', 'rn', 'ri']
+
+
+def dom_typed(run, thorough):
+    """typed data and units: the operations move NUMBERS -- an integer / float32 typed source, or one in extreme units, gives the
+    result of the same numbers as float64 (the model does not know the dtype)"""
+    mu = Multi(run, 'typed-units',
+               'every operation kind (%d concrete operations incl. numpy-integer typed index / order arguments%s) once on a 2-RDM object '
+               'over 4 conditions with a 1-RDM partner: dissimilarities held as %s (integer sentinels 1..240) in 2-D and 3-D input form, and as '
+               'float64 multiplied by each of %s (with NaN entries); descriptors incl. variable-width str and float valued ones in '
+               'list / tuple / ndarray / int8-ndarray containers' % (len(OPS_EACH) + len(EXTRA_OPS), '' if thorough else '; every other variant: a third of them', ', '.join(DTYPES), UNITS),
+               exhaustive=False)
+    cids = [4, 1, 5, 0]
+    ops = OPS_EACH + EXTRA_OPS
+    variants = []
+    for k, dt in enumerate(DTYPES):
+        for form in (('vector', 'matrix') if thorough or k % 2 == 0 else ('vector',)):
+            other = DTYPES[(k + 2) % len(DTYPES)] if form == 'vector' else None      # partner of another dtype (promotion) / float64
+            variants.append((dict(vmode='small'),
+                             [_src([13, 1], cids, dtype=dt, form=form, porder=P_EXT, rorder=R_EXT, ptype=['list', 'tuple', 'array', 'int8'][k % 4],
+                                   rtype=['array', 'list', 'int8', 'tuple'][k % 4], odesc={'sess': 'a', 'lab': 'L'}),
+                              _src([15], cids, dtype=other, porder=P_EXT, rorder=R_EXT, ptype='array', odesc={'sess': 'session-b', 'lab': 'L'})]))
+    for k, unit in enumerate(UNITS):
+        variants.append((dict(unit=unit),
+                         [_src([3, 1], cids, nan=[[1, 0, 4]], porder=P_EXT, rorder=R_EXT, ptype=['tuple', 'list'][k % 2], rtype='tuple',
+                               form=['vector', 'matrix', 'vectorF'][k % 3], odesc={'sess': 'a'}),
+                          _src([7], cids, porder=P_EXT, rorder=R_EXT, rtype='int8', ptype='int8', odesc={'sess': 'session-b'})]))
+    for j, (keys, src) in enumerate(variants):
+        for k, op in enumerate(ops if thorough or j % 2 == 0 else ops[(j // 2) % 3::3]):
+            case = dict(src=src, ops=[op], export_from=-1 if k == 0 else 0, **keys)     # export of the sources judged once per variant
+            if _admissible(case):
+                mu.check(case)
+        # two steps: a selection with repeated conditions / a partial-RDM combination, then the export and a re-selection
+        mu.check(dict(src=src, ops=[['subsample_pattern', 0, {'by': 'pc', 'pos': [0, 1, 0], 'cont': 'list'}],
+                                    ['subset_pattern', -1, {'by': 'pw', 'pos': [0, 1, 2], 'cont': 'tuple'}],
+                                    ['from_partials', None, {'objs': [0, 1], 'desc': 'pw', 'all': 'rev+extra'}],
+                                    ['concat', None, {'objs': [-1, -1], 'target': 'pw', 'call': 'list'}]], **keys))
+    return mu.done()
+
+
+def dom_vector(run, thorough):
+    """vector-valued (2-D) descriptors are carried along like any other descriptor value"""
+    mu = Multi(run, 'vector-valued-descriptors',
+               'every operation kind once on a 2-RDM object over 4 conditions (1-RDM partner) whose conditions and RDMs carry a descriptor '
+               'holding one VECTOR per element (2-D ndarray / list of lists / tuple of tuples); selections by the other descriptors; '
+               'concat with an explicit target descriptor; DataFrame export not judged', exhaustive=False)
+    cids = [4, 1, 5, 0]
+    pord, rord = ['cid', 'pv', 'pn', 'pc', 'pi'], ['rid', 'rv', 'rs', 'rn', 'ri']
+    for ptype, rtype in (('array', 'list'), ('list', 'array'), ('tuple', 'tuple')):
+        src = [_src([3, 1], cids, nan=[[1, 0, 4]], porder=pord, rorder=rord, ptype=ptype, rtype=rtype),
+               _src([7], cids, porder=pord, rorder=rord, ptype=ptype, rtype=rtype)]
+        for op in OPS_EACH + EXTRA_OPS:
+            case = dict(src=src, ops=[op])
+            if _admissible(case) and not any(c in PENDING for fl in dry_run(case)[0] for _, c in fl):
+                mu.check(case, label='vector-valued-descriptor')
+    if False:  # pending triage: concat-default-target-vector-valued-descriptor
+        for ptype in ('array', 'list'):
+            src = [_src([3, 1], cids, porder=pord, rorder=rord, ptype=ptype), _src([7], cids, porder=pord, rorder=rord, ptype=ptype)]
+            mu.check(dict(src=src, ops=[['concat', None, {'objs': [0, 1], 'target': None}]]))
+    if False:  # pending triage: to_df-vector-valued-descriptor
+        src = [_src([3, 1], cids, porder=pord, ptype='array')]
+        mu.check(dict(src=src, ops=[['copy', 0, {}]], export_vector=True), label='to_df-vector-valued-descriptor')
+    if False:  # pending triage: permute_rdms-vector-of-another-integer-type
+        for dt in ('int32', 'uint8'):
+            mu.check(dict(src=[_src([3, 1], cids)], ops=[['permute', 0, {'perm': 'rot', 'dt': dt}]]))
+    return mu.done()
+
+
+def dom_calls(run, thorough):
+    """call sequences: the same call twice; twin objects of the same shape with different content, interleaved"""
+    mu = Multi(run, 'call-sequences',
+               'every operation of the menu of %d performed twice in a row on the same object (first result kept and re-checked), on both '
+               'source variants; every operation kind on an object X, then on a twin X\' of the SAME shape and container types but other '
+               'values / conditions, then on X again (all results kept and re-checked after every call)' % len(MENU), exhaustive=False)
+    for variant in (0, 1):
+        src = _exh_sources(3, 4, variant)
+        for op in MENU:
+            for tail in ([], [['copy', -1, {}], ['sort_by', -1, {'by': 'pn', 'how': 'alpha', 'reindex': True}]]):
+                case = dict(src=src, ops=[op] + tail, export_from=0)
+                if _admissible(case):
+                    mu.check(_doubled(case))
+    twins = [_src([3, 1], [4, 1, 5, 0], nan=[[1, 0, 4]]), _src([7], [4, 1, 5, 0], ptype='array'),
+             _src([12, 14], [2, 7, 3, 9], nan=[[14, 2, 9]]), _src([19], [2, 7, 3, 9], ptype='array')]
+
+    def shift(op):
+        a = dict(op[2])
+        if 'other' in a:
+            a['other'] += 2
+        if 'objs' in a:
+            a['objs'] = [k + 2 for k in a['objs']]
+        return [op[0], None if op[1] is None else op[1] + 2, a]
+    for op in OPS_EACH + EXTRA_OPS:
+        case = dict(src=twins, ops=[op, shift(op), op, shift(op)], export_from=0)
+        if _admissible(case):
+            mu.check(case)
+    return mu.done()
+
+
+def _sweep_sources(rs, mode, thorough):
+    """3 sources over one condition set; mode 0: integer / float32 typed, 1: extreme units, 2: vector-valued descriptors,
+    3: more RDMs / conditions than the histories domain.  RDM ghosts in non-monotone order, extended descriptors, all containers."""
+    if mode == 0:
+        n_c = int(rs.randint(2, 7))
+        pool_c = 6
+    elif mode == 3:
+        n_c = int(rs.randint(9, 14 if thorough else 11))
+        pool_c = 16
+    else:
+        n_c = int(rs.randint(2, 9))
+        pool_c = 12
+    cids = [int(v) for v in rs.permutation(pool_c)[:n_c]]
+    ghosts = [int(v) for v in rs.permutation(16)]
+    porder = [P_EXT[v] for v in rs.permutation(len(P_EXT))]
+    rorder = [R_EXT[v] for v in rs.permutation(len(R_EXT))]
+    if mode == 2:
+        porder.insert(int(rs.randint(1, 4)), 'pv')
+        rorder.insert(int(rs.randint(1, 4)), 'rv')
+    srcs = []
+    conts = ['list', 'array', 'tuple', 'int8']
+    for k in range(3):
+        n_r = int(rs.randint(1, 5)) if mode != 3 else int(rs.randint(3, 6))
+        if mode == 3 and k == 0:
+            n_r = 6
+        rids, ghosts = ghosts[:n_r], ghosts[n_r:]
+        order = cids if k == 2 or rs.rand() < 0.5 else [cids[v] for v in rs.permutation(n_c)]
+        dtype = [None, 'int64', 'int32', 'int16', 'uint8', 'float32'][rs.randint(6)] if mode == 0 else None
+        nan = []
+        if dtype in (None, 'float32'):
+            for _ in range(rs.randint(0, 3)):
+                if n_c > 1:
+                    a, b = rs.permutation(n_c)[:2]
+                    nan.append([int(rids[rs.randint(n_r)]), int(cids[a]), int(cids[b])])
+        srcs.append(_src(rids, order, nan=nan, dtype=dtype, ptype=conts[rs.randint(4)], rtype=conts[rs.randint(4)],
+                         form=['vector', 'vectorF', 'matrix'][rs.randint(3)], porder=porder, rorder=rorder,
+                         odesc=[{'sess': 'session-%d' % k * (k + 1), 'lab': 'L'}, {'lab': 'L'}][rs.randint(2)]))
+    return srcs
+
+
+KINDS_S = KINDS_W + ['permute', 'getitem', 'reorder', 'subsample_pattern']
+
+
+def dom_sweep_histories(run, thorough):
+    n_seeds = 600 if thorough else 80
+    mu = Multi(run, 'sweep-histories',
+               '%d seeded random admissible histories of <= 12 operations (14 operation kinds; index / order arguments as int, numpy '
+               'integer scalars, int32 / int16 / uint8 arrays, tuples) over pools starting from 3 objects, in four modes: integer / float32 '
+               'typed dissimilarities (1..4 RDMs, 2..6 conditions), float64 in units of 1e-26..1e12, vector-valued descriptors, and '
+               '3..6 RDMs over 9..%d conditions; RDM ghosts in non-monotone order, str (variable width) / int / float descriptors in list / '
+               'tuple / ndarray / int8 containers; every third history with every call doubled'
+               % (n_seeds, 13 if thorough else 10), budget_s=150 if thorough else 8)
+    for seed in range(n_seeds):
+        if mu.out_of_budget():
+            break
+        rs = np.random.RandomState(77000 + seed)
+        mode = seed % 4
+        src = _sweep_sources(rs, mode, thorough)
+        keys = {}
+        if mode == 0:
+            keys['vmode'] = 'small'
+        if mode == 1:
+            keys['unit'] = UNITS[(seed // 4) % len(UNITS)]
+        case = _gen_history(rs, src, int(rs.randint(4, 13 if mode != 3 else 9)), KINDS_S, sweep=True, **keys)
+        if not case['ops']:
+            continue
+        if seed % 3 == 0:
+            case = _doubled(case)
+        mu.check(case, label='vector-valued-descriptor' if mode == 2 else None)
+    return mu.done()
+
+
+_HASHSEED_SCRIPT = """
+import json, sys, warnings
+warnings.simplefilter('ignore')
+import contracts.C10_c as m
+out = []
+for case in json.load(sys.stdin):
+    flags, _ = m.dry_run(case)
+    for asp, (step, msg) in sorted(m.run_history(case).items()):
+        if 0 <= step < len(flags) and asp in dict(flags[step]):
+            continue          # a step of an input class with a recorded defect: judged in-process under its own class
+        out.append('%s: %s' % (asp, msg))
+print('C10-HASHSEED-RESULT ' + json.dumps(out))
+"""
+
+
+def _hashseed_cases(n, seed0):
+    cases = []
+    for seed in range(seed0, seed0 + n):
+        rs = np.random.RandomState(88000 + seed)
+        src = _sweep_sources(rs, 1 + seed % 2, False)
+        cases.append(_gen_history(rs, src, 8, ['concat', 'from_partials', 'subset', 'subsample', 'subset_pattern', 'append', 'copy', 'dict',
+                                                'sort_by'], sweep=True))
+    return cases
+
+
+@oracle('C10/hashseed')
+def orc_hashseed(case):
+    """environment: a NEW interpreter started with another PYTHONHASHSEED judges the same histories (str labels, descriptor merging
+    of concat / from_partials through sets / dicts) -- every clause must hold there too"""
+    import os
+    import subprocess
+    import sys
+    cases = _hashseed_cases(case['n'], case['seed0'])
+    env = dict(os.environ, PYTHONHASHSEED=str(case['hashseed']))
+    root = os.path.dirname(os.path.dirname(os.path.abspath(__file__)))
+    pr = subprocess.run([sys.executable, '-c', _HASHSEED_SCRIPT], input=json.dumps(cases), capture_output=True, text=True,
+                        env=env, cwd=root, timeout=300)
+    lines = [ln for ln in pr.stdout.splitlines() if ln.startswith('C10-HASHSEED-RESULT ')]
+    if pr.returncode != 0 or not lines:
+        return f'interpreter with PYTHONHASHSEED={case["hashseed"]} failed (rc {pr.returncode}): {pr.stderr[-400:]}'
+    probs = json.loads(lines[-1][len('C10-HASHSEED-RESULT '):])
+    if probs:
+        return f'under PYTHONHASHSEED={case["hashseed"]}: {probs[0]} ({len(probs)} clause failures)'
+    return None
+
+
+def dom_hashseed(run, thorough):
+    seeds = (1, 2, 3, 12345, 4294967295) if thorough else (1,)
+    n = 40 if thorough else 8
+    bd = Bounded(run, 'C10/hashseed', 'C10/RDMs/oracle/hashseed',
+                 '%d seeded histories of 8 operations (concat / from_partials / selections / append / sort_by / dictionary round trip; str '
+                 'labels) judged by all clauses in a new interpreter started with PYTHONHASHSEED = %s' % (n, ', '.join(map(str, seeds))),
+                 exhaustive=False, function='concat')
+    for hs in seeds:
+        bd.check(orc_hashseed, dict(hashseed=hs, n=n, seed0=0), 'other-hash-seed', function='concat')
+    bd.done()
+    return [bd]
 
 
 def tier_c(run, thorough):
@@ -1323,4 +1768,9 @@ def tier_c(run, thorough):
     bds += dom_permute(run, thorough)
     bds += dom_exhaustive(run, thorough)
     bds += dom_random(run, thorough)
+    bds += dom_typed(run, thorough)
+    bds += dom_vector(run, thorough)
+    bds += dom_calls(run, thorough)
+    bds += dom_sweep_histories(run, thorough)
+    bds += dom_hashseed(run, thorough)
     return bds
